@@ -1394,7 +1394,20 @@ func (c *p5) exception(fn *Func, base ast.Expr, at ast.Node) (string, bool) {
 	if ie, ok := ast.Unparen(base).(*ast.IndexExpr); ok {
 		if sel, ok := ast.Unparen(ie.X).(*ast.SelectorExpr); ok && sel.Sel.Name == "Files" {
 			if typeIs(info.TypeOf(sel.X), "hcl-lang/decoder", "PathContext") {
-				if ks, ok := ast.Unparen(ie.Index).(*ast.SelectorExpr); ok && ks.Sel.Name == "Filename" {
+				idx := ast.Unparen(ie.Index)
+				// the key kept in a single-definition local (`filename := rng.Filename`)
+				for hop := 0; hop < 3; hop++ {
+					kid, isId := idx.(*ast.Ident)
+					if !isId {
+						break
+					}
+					def := fn.SingleDef(info.ObjectOf(kid))
+					if def == nil {
+						break
+					}
+					idx = ast.Unparen(def)
+				}
+				if ks, ok := idx.(*ast.SelectorExpr); ok && ks.Sel.Name == "Filename" {
 					if typeIs(info.TypeOf(ks.X), "hcl/v2", "Range") {
 						return "files are stored in PathContext.Files under the filename they were parsed with; the key is the filename of a range of a node of such a file (stated assumption)", true
 					}
